@@ -246,3 +246,59 @@ def run_by_handle(prog, rep):
     if n < 10:
         raise AnalysisBroken('R-BYHANDLE: only %d by-handle delete/remove overloads found' % n)
     return rule
+
+
+def run_break_cycles(prog, rep):
+    """an entity whose own sub-tree can hold a hard link back to it (alias range dimension: <array>/dimensions/1 links the
+    array) must lose that sub-tree before it is unlinked, otherwise the object keeps itself alive: handles stay valid, the
+    file keeps the data"""
+    rule = rep.rule('R-DEL-CYCLE', 'BlockHDF5::removeEntity removes the dimension descriptors of a DataArray before it unlinks the array (a descriptor can link back to the array)', floor=1)
+    sem = Sem(prog)
+    f = prog.fn('nix::hdf5::BlockHDF5::removeEntity')
+    ral = [c for c in f.calls() if (c.callee or {}).get('name') == 'removeAllLinks']
+    dd = [c for c in f.calls() if (c.callee or {}).get('name') == 'deleteDimensions']
+    if not ral:
+        raise AnalysisBroken('R-DEL-CYCLE: removeAllLinks not found in BlockHDF5::removeEntity')
+    # where the back link is made: the alias constructor of RangeDimensionHDF5 links the array into the dimension group
+    back = [c for g in prog.fns('nix::hdf5::RangeDimensionHDF5::RangeDimensionHDF5') if g.body is not None for c in g.calls() if (c.callee or {}).get('name') in ('createLink',)]
+    if not back:
+        rule.ok('BlockHDF5::removeEntity|no-back-link', rep.where(f), f.label(), 'no dimension constructor links the array into its own sub-tree any more', nontrivial=False)
+        return rule
+    ok = False
+    why = 'no deleteDimensions() call before removeAllLinks'
+    for c in dd:
+        if c.id > ral[0].id:
+            continue
+        facts = sem.facts_at(f, c.id)
+        typed = any("'nix::ObjectType::DataArray'" in repr(t) and ((isinstance(t, tuple) and t[1] == '==' and pol) or (isinstance(t, tuple) and t[1] == '!=' and not pol)) for t, pol in facts)
+        if typed:
+            ok = True
+        else:
+            why = 'deleteDimensions() is not under ident.type() == ObjectType::DataArray'
+    rule.check(ok, 'BlockHDF5::removeEntity|dimensions-first', rep.where(ral[0]), f.label(), 'for a DataArray the dimension descriptors go first (%d back-link site(s) in RangeDimensionHDF5)' % len(back),
+               '%s: an array with an alias range dimension links to itself from <array>/dimensions/1; unlinked from the block it keeps itself alive - its handle stays valid and the data stays in the file' % why)
+    return rule
+
+
+def run_section_selflink(prog, rep):
+    """deleteSection: the victim's own 'link' (which may point to the victim itself) is dropped before the victim is unlinked"""
+    rule = rep.rule('R-DEL-SELFLINK', 'FileHDF5::deleteSection and SectionHDF5::deleteSection drop the victim\'s own section link before removeAllLinks (a section may be linked to itself)', floor=2)
+    n = 0
+    for q in ('nix::hdf5::FileHDF5::deleteSection', 'nix::hdf5::SectionHDF5::deleteSection'):
+        for f in prog.fns(q):
+            if f.body is None or not f.params or 'string' not in f.params[0]['type']:
+                continue
+            n += 1
+            ral = [c for c in f.calls() if (c.callee or {}).get('name') == 'removeAllLinks']
+            unl = [c for c in f.calls() if (c.callee or {}).get('name') == 'link' and [a for a in real_args(c) if a is not None and 'none' in a.src(20)]]
+            victim = None
+            if ral:
+                a = [x for x in real_args(ral[0]) if x is not None]
+                refs = [y for y in a[0].walk() if y.k == 'ref' and y.decl.get('kind') == 'local'] if a else []
+                victim = refs[0].decl.get('lid') if refs else None
+            ok = bool(ral) and any(c.id < ral[0].id and any(y.k == 'ref' and y.decl.get('lid') == victim for y in c.walk()) for c in unl)
+            rule.check(ok, q.split('::', 2)[-1], rep.where(ral[0] if ral else f), f.label(), 'victim.link(none) precedes removeAllLinks(victim.name())',
+                       'the victim is unlinked while it may still hold a section link to itself: such a section keeps itself alive, its handles stay valid and the group stays in the file')
+    if n < 2:
+        raise AnalysisBroken('R-DEL-SELFLINK: deleteSection implementations not found')
+    return rule
